@@ -981,6 +981,41 @@ class Gen:
             self.add({'kind': 'enum', 'name': self.name('E'), 'bits': n, 'exh': 'true' if c == (1 << n) else 'false', 'variants': vs},
                      'F9', 'accept', ['source-constant-variants', 'c=%d' % c])
 
+    def fam_interactions(self):
+        """feature interactions, systematically: every element kind x every layout (single, array, strided array, range list,
+        range-list array) x two placements (up to the top bit; across bit 64 on wide bases) on arbitrary-int and native bases"""
+        F = self.field
+        u = lambda n: {'k': 'u', 'n': n}
+        for W in (24, 64, 100, 128):
+            kinds = [('u3', u(3), 3), ('u8', u(8), 8), ('i8', {'k': 'i', 'n': 8}, 8), ('bool', {'k': 'bool'}, 1),
+                     ('enum3', self.custom_enum(3), 3), ('enum8', self.custom_enum(8), 8), ('nested4', self.custom_nested(4), 4),
+                     ('i16', {'k': 'i', 'n': 16}, 16)]
+            for kname, ty, n in kinds:
+                places = [('top', W)] + ([('across64', 64 + n)] if W > 64 + 2 * n else [])
+                for pname, end in places:
+                    fields = []
+                    lo = end - n
+                    # single
+                    fields.append(F('single', dict(ty), [('r', lo, end - 1)] if n > 1 else [('s', lo)]))
+                    # array of 2 (packed) and of 3 (stride n + 2), both ending at `end`
+                    if end - 2 * n >= 0:
+                        a0 = end - 2 * n
+                        fields.append(F('arr', dict(ty), [('r', a0, a0 + n - 1)] if n > 1 else [('s', a0)], count=2))
+                    if end - (2 * (n + 2) + n) >= 0:
+                        a0 = end - (2 * (n + 2) + n)
+                        fields.append(F('strided', dict(ty), [('r', a0, a0 + n - 1)] if n > 1 else [('s', a0)], count=3, stride=n + 2))
+                    # range list: the low half of the value at the top, the high half at the bottom of the base
+                    if n >= 2 and ty['k'] != 'bool':
+                        h = n // 2
+                        fields.append(F('split', dict(ty), [('r', end - h, end - 1), ('r', 0, n - h - 1)], lst=True))
+                        # range-list array: two elements, second one ending at `end`
+                        st = n + 1
+                        if end - h - st >= n - h + st:
+                            fields.append(F('splitarr', dict(ty), [('r', end - h - st, end - 1 - st), ('r', 0, n - h - 1)], count=2, stride=st, lst=True))
+                    self.add({'kind': 'bitfield', 'name': self.name('S'), 'base': W, 'fields': fields,
+                              'default': {'form': 'lit', 'value': ((1 << W) - 1) // 3}}, 'F10', 'accept',
+                             ['interaction', kname, pname, 'W=%d' % W])
+
     def fam_exhaustive(self):
         """thorough tier: ALL 128 base widths (full-width field + top-bit bool, defaults in rotation), and ALL contiguous
         layouts (lo, hi) on 8- and 16-bit storage"""
@@ -1036,6 +1071,7 @@ class Gen:
         self.perturbed_enums(80 if q else 400)
         self.exhaustive_small_slice()
         self.fam_constants(self.consts)
+        self.fam_interactions()
         return self.decls
 
 
